@@ -113,6 +113,22 @@ def scale_of(fracs, cap=10 ** 12):
     return l
 
 
+def order_preserved(T, Mx):
+    """the float table used in a replay must order the distances exactly as the solver's rational model does (a model
+    whose distinct values collapse to equal floats is a different input - e.g. no longer tie-free)"""
+    flat_t = [x for row in T for x in row]
+    flat_f = [float(x) for x in np.asarray(Mx).reshape(-1)]
+    idx = sorted(range(len(flat_t)), key=lambda i: flat_t[i])
+    for a, b in zip(idx, idx[1:]):
+        if (flat_t[a] == flat_t[b]) != (flat_f[a] == flat_f[b]) or flat_f[a] > flat_f[b]:
+            return False
+    return True
+
+
+UNFAITHFUL = {'out': None, 'violated': [], 'skip_compare': True,
+              'note': 'the solver model cannot be represented in float64 without changing the order of the distances; replay skipped'}
+
+
 def concrete_metric(T, scale):
     M = np.array([[float(x * scale) for x in row] for row in T], dtype=float)
 
@@ -341,6 +357,8 @@ def kcenters_job(N, mode, k=None, warm=0, tri=False, entry='function', shortcut=
             cut = ev(model, cutoff) if isinstance(cutoff, SVal) else cutoff
             sc = scale_of([x for row in T for x in row] + [cut])
             metric, Mx = concrete_metric(T, sc)
+            if not order_preserved(T, Mx):
+                return dict(UNFAITHFUL, inputs={'D': [[float(x) for x in row] for row in T]})
             kw = {}
             if 'dist_cutoff' in kwargs:
                 kw['dist_cutoff'] = None if kwargs['dist_cutoff'] is None else float(cut * sc)
@@ -571,6 +589,8 @@ def kmedoids_job(N, k, entry='pam', sweeps=1, warm=None, proposals=False, tri=Fa
             cut = ev(model, cutoff) if cutoff is not None else None
             sc = scale_of([x for row in T for x in row] + ([cut] if cut is not None else []))
             metric, Mx = concrete_metric(T, sc)
+            if not order_preserved(T, Mx):
+                return dict(UNFAITHFUL, inputs={'D': [[float(x) for x in row] for row in T]})
             dv = [int(ev(model, v)) for v in draws]
             inputs = {'N': N, 'k': k, 'entry': entry, 'sweeps': sweeps, 'warm': warm, 'mode': mode,
                       'D': [[float(x) for x in row] for row in T], 'random_draws': dv,
